@@ -710,6 +710,28 @@ def rebuild(a):
         return mk_not(a[1])
     if k == "ite":
         return mk_ite(a[1], a[2], a[3])
+    if k == "in" and is_pure_const(a[1]):
+        coll = a[2].single_atom()
+        if coll is not None and coll[0] in ("tuple", "list", "set") and all(is_pure_const(x) for x in coll[1]):
+            return const(any(x == a[1] for x in coll[1]))
+        if coll is not None and coll[0] == "dict" and all(is_pure_const(k_) for k_, _v in coll[1]):
+            return const(any(k_ == a[1] for k_, _v in coll[1]))
+    if k == "sub" and is_pure_const(a[2]):
+        coll = a[1].single_atom()
+        if coll is not None and coll[0] == "dict":
+            for k_, v_ in coll[1]:
+                if k_ == a[2]:
+                    return v_
+        if coll is not None and coll[0] in ("tuple", "list") and a[2].is_const():
+            i = a[2].const_value()
+            if i.denominator == 1 and -len(coll[1]) <= int(i) < len(coll[1]):
+                return coll[1][int(i)]
+    if k == "call" and a[1] == "isinstance" and len(a[2]) == 2 and is_pure_const(a[2][0]):
+        cls = a[2][1].single_atom()
+        names = {"builtins.str": str, "builtins.int": int, "builtins.float": float, "builtins.bool": bool}
+        if cls is not None and cls[0] == "global" and cls[1] in names:
+            v = const_py(a[2][0])
+            return const(isinstance(v, names[cls[1]]))
     return atom(a)
 
 
